@@ -3,6 +3,7 @@ package h
 import (
 	"bytes"
 	"fmt"
+	"github.com/couchbaselabs/rosmar"
 	"hash/fnv"
 	"sort"
 	"strings"
@@ -524,10 +525,23 @@ func (r *Run) Stable() {
 }
 
 // Purge runs PurgeTombstones and checks it removed exactly the body-less keys.
-func (r *Run) Purge(h int) {
+func (r *Run) Purge(h int) { r.purge(h, false) }
+
+// purge: PurgeTombstones through handle h, or (fresh) through a handle opened for the occasion that
+// has not looked up any collection yet.
+func (r *Run) purge(h int, fresh bool) {
 	w := r.W
 	m := w.Model
-	n, err := w.Handles[h].PurgeTombstones()
+	pb := w.Handles[h]
+	if fresh {
+		if nb, oerr := rosmar.OpenBucket(w.URL, w.Name, rosmar.ReOpenExisting); oerr == nil {
+			pb = nb
+			defer nb.Close(ctx)
+		} else {
+			r.dev("purge.open", []string{"C13"}, "a further handle of the open bucket cannot be opened: %v", oerr)
+		}
+	}
+	n, err := pb.PurgeTombstones()
 	want := 0
 	for ci := range m.Colls {
 		if m.Colls[ci].Dropped {
@@ -540,6 +554,9 @@ func (r *Run) Purge(h int) {
 		}
 	}
 	tr := StepTrace{Op: Op{K: "Purge", H: h}, Outcome: "purged"}
+	if fresh {
+		tr.Op.Amt = 1
+	}
 	if err != nil {
 		r.dev("purge.err", []string{"C05"}, "PurgeTombstones failed: %v", err)
 		tr.Outcome = "DEVIATION"
@@ -562,7 +579,7 @@ func (r *Run) Purge(h int) {
 				wantSt = St{}
 			}
 			if !got.Equal(wantSt) {
-				r.dev("purge.exact", []string{"C05", "C01"}, "after purge %s/%q is %s, expected %s", w.Cfg.Colls[ci], k, got, wantSt)
+				r.dev("purge.exact", []string{"C05", "C01", "C06"}, "after purge %s/%q is %s, expected %s", w.Cfg.Colls[ci], k, got, wantSt)
 				tr.Outcome = "DEVIATION"
 			}
 			m.Commit(ci, k, got, "Purge")
